@@ -3,6 +3,7 @@
 package main
 
 import (
+	"fmt"
 	"strings"
 
 	rt "github.com/arnodel/golua/runtime"
@@ -25,4 +26,51 @@ func registerFlagsHelper(r *rt.Runtime) {
 	}, "__flags", 1, false)
 	fn.SolemnlyDeclareCompliance(rt.ComplyCpuSafe | rt.ComplyMemSafe | rt.ComplyIoSafe | rt.ComplyTimeSafe)
 	r.SetEnv(r.GlobalEnv(), "__flags", rt.FunctionValue(fn))
+	registerProbeHelper(r)
+}
+
+// registerProbeHelper adds the global __probe(flags, id [, ret]): a NEW Go function named "probe" that has declared
+// exactly the compliance flags named in the string flags.  Whenever it runs (whatever its arguments, from whatever
+// thread) it records the event ("probe", id) through the global emit and returns ret.  It has no other effect, so
+// "the gate let the function run" is directly observable on every route by which a Go function can be reached.
+func registerProbeHelper(r *rt.Runtime) {
+	mk := rt.NewGoFunction(func(t *rt.Thread, c *rt.GoCont) (rt.Cont, error) {
+		names, err := c.StringArg(0)
+		if err != nil {
+			return nil, err
+		}
+		var declared rt.ComplianceFlags
+		for _, nm := range strings.Fields(names) {
+			var ok bool
+			if declared, ok = declared.AddFlagWithName(nm); !ok {
+				return nil, fmt.Errorf("__probe: unknown flag %q", nm)
+			}
+		}
+		id := rt.NilValue
+		if c.NArgs() >= 2 {
+			id = c.Arg(1)
+		}
+		ret := rt.NilValue
+		if c.NArgs() >= 3 {
+			ret = c.Arg(2)
+		}
+		probe := rt.NewGoFunction(func(t *rt.Thread, c *rt.GoCont) (rt.Cont, error) {
+			emitV := t.GlobalEnv().Get(rt.StringValue("emit"))
+			if !emitV.IsNil() {
+				term := rt.NewTerminationWith(nil, 0, false)
+				if err := rt.Call(t, emitV, []rt.Value{rt.StringValue("probe"), id}, term); err != nil {
+					return nil, err
+				}
+			}
+			next := c.Next()
+			if !ret.IsNil() {
+				t.Push1(next, ret)
+			}
+			return next, nil
+		}, "probe", 0, true)
+		probe.SolemnlyDeclareCompliance(declared)
+		return c.PushingNext1(t.Runtime, rt.FunctionValue(probe)), nil
+	}, "__probe", 3, false)
+	mk.SolemnlyDeclareCompliance(rt.ComplyCpuSafe | rt.ComplyMemSafe | rt.ComplyIoSafe | rt.ComplyTimeSafe)
+	r.SetEnv(r.GlobalEnv(), "__probe", rt.FunctionValue(mk))
 }
